@@ -13,9 +13,14 @@ verus! {
 
 // TRUSTED: `#[derive(Default)]` on `struct Range<T>` (src/lib.rs; the derive expansion itself is outside Verus' subset):
 // every field is its type's default -- (0, 0), (0, 0), empty Vec.
+impl<T> Range<T> {
+    pub closed spec fn lo(&self) -> (u32, u32) { self.start }
+    pub closed spec fn hi(&self) -> (u32, u32) { self.end }
+    pub closed spec fn data(&self) -> Seq<T> { self.inner@ }
+}
 impl<T: Default> Default for Range<T> {
     fn default() -> (r: Self)
-        ensures r.start == (0u32, 0u32), r.end == (0u32, 0u32), r.inner@.len() == 0,
+        ensures r.lo() == (0u32, 0u32), r.hi() == (0u32, 0u32), r.data().len() == 0,
     {
         Range { start: (0, 0), end: (0, 0), inner: Vec::new() }
     }
@@ -124,10 +129,9 @@ fn verif_windows_enumerate<'a, T>(s: &'a [T], n: usize) -> (r: Enumerate<Windows
 //@@ end
 
 //@@ fn src/ods.rs get_range props=C04 ret=r
-//@@ r6 0
-//@@ r6 1
-//@@ replace /cols\.windows\(2\)\.enumerate\(\)/ Verus cannot attach a specification to the provided trait method Iterator::enumerate; the expression is moved verbatim into the trusted wrapper verif_windows_enumerate
+//@@ r6 0 iter /cols\.windows\(2\)\.enumerate\(\)/ Verus cannot attach a specification to the provided trait method Iterator::enumerate; the expression is moved verbatim into the trusted wrapper verif_windows_enumerate
 verif_windows_enumerate(cols, 2)
+//@@ r6 1
 //@@ replace /rows_repeats\.iter\(\)\.take\(i\)\.sum::<usize>\(\)/ Verus cannot attach a specification to the provided trait method Iterator::sum; the expression is moved verbatim into the trusted wrapper verif_sum_take
 verif_sum_take(rows_repeats, i)
 //@@ replace /row\.iter\(\)\.rposition\(/ slice::Iter::rposition cannot be given an assume_specification (its where-clause makes the path resolve to the provided trait method); the call is moved verbatim into the trusted wrapper verif_rposition
